@@ -15,11 +15,16 @@ use super::*;
 /// This function validates that:
 /// 1. There is exactly one `start` statement.
 /// 2. The start symbol refers to a valid nonterminal.
-//@[ T13: outlined selection (current /repo tokens; body not verified, contract assumed)
-#[verifier::external_body]
-fn __vx_select_starts<'a>(file: &'a File) -> (r: Vec<&'a Ident>)
-    ensures r@.len() == sel_starts(file.items@).len(), forall|i: int| 0 <= i < r@.len() ==> *(#[trigger] r@[i]) == sel_starts(file.items@)[i]
-{ /*@orig T13_select_starts*/ }
+//@[ C10 lemma: the selection computed with filter_map is the list of start declarations
+pub open spec fn g_start<'a>(it: FileItem) -> Option<&'a Ident> { match it { FileItem::Start(s) => Some(&s), _ => None } }
+proof fn lemma_select_starts<'a>(items: Seq<FileItem>, g: spec_fn(FileItem) -> Option<&'a Ident>)
+    requires forall|it: FileItem| #[trigger] g(it) == g_start::<'a>(it)
+    ensures filter_map_spec(items, g).len() == sel_starts(items).len(),
+        forall|i: int| 0 <= i < sel_starts(items).len() ==> *(#[trigger] filter_map_spec(items, g)[i]) == sel_starts(items)[i]
+    decreases items.len()
+{
+    if items.len() > 0 { lemma_select_starts(items.drop_last(), g); }
+}
 //@]
 
 pub fn get_start_symbol_name(
@@ -34,14 +39,21 @@ pub fn get_start_symbol_name(
     },
     //@]
 {
-    let starts: Vec<&Ident> = /*@{ T13_select_starts*//*@- file
+    let starts: Vec<&Ident> = /*@{ T18_open*//*@- file
         .items
         .iter()
-        .filter_map(|item| match item {
+        .filter_map( *//*@|*/__vx_filter_map_collect(&file.items, /*@}*/|item/*@[*/: &FileItem/*@]*/| /*@[*/-> (o: Option<&Ident>) ensures o == g_start(*item) { /*@]*/match item {
             FileItem::Start(start) => Some(start),
             _ => None,
-        })
-        .collect() *//*@|*/__vx_select_starts(file)/*@}*/;
+        }/*@[*/ }/*@]*//*@{ T18_close*//*@- )
+        .collect() *//*@|*/)/*@}*/;
+    //@[ proof
+    proof {
+        let lam = |it: FileItem| g_start(it);
+        assert(starts@ == filter_map_spec(file.items@, lam));
+        lemma_select_starts(file.items@, lam);
+    }
+    //@]
 
     if starts.is_empty() {
         return Err(KikiErr::NoStartSymbol);
